@@ -9,8 +9,14 @@ MODULES = ["NngModel.Props.C15"]
 # never parks", proved over all histories in the protocol property files
 EXTRA = {
     "NngModel.Props.C06": ["Nng.C06.push_writable_iff", "Nng.C06.push_nonblocking_never_parks", "Nng.C06.pull_readable_iff"],
-    "NngModel.Props.C05": ["Nng.C05.T8_readable_iff_queued", "Nng.C05.T8_readable_iff_nb_recv_succeeds", "Nng.C05.T8_pub_always_writable"],
     "NngModel.Props.C09": ["Nng.C09.B2_send_never_blocks", "Nng.C09.B6_readable", "Nng.C09.B6_writable"],
+    "NngModel.Props.C04Rep": ["Nng.C04Rep.readable_exact", "Nng.C04Rep.writable_exact", "Nng.C04Rep.nonblocking_send_result"],
+    "NngModel.Props.C07": ["Nng.C07.S7_surveyor_nonblocking", "Nng.C07.S7_surveyor_readable", "Nng.C07.S7_surveyor_nb_outcomes",
+                           "Nng.C07.S7_respondent_readable", "Nng.C07.S7_respondent_nb_recv", "Nng.C07.S7_respondent_writable",
+                           "Nng.C07.raw_poll_flags"],
+    "NngModel.Props.C08": ["Nng.C08.a6_writable_iff_nb_send_succeeds", "Nng.C08.a6_readable_iff_nb_recv_succeeds"],
+    "NngModel.Props.C05": ["Nng.C05.T8_readable_iff_queued", "Nng.C05.T8_readable_iff_nb_recv_succeeds", "Nng.C05.T8_pub_always_writable",
+                           "Nng.C05.X4_readable_iff_nb_recv_succeeds"],
 }
 
 
